@@ -729,7 +729,10 @@ def run(ctx):
         return mm.group(1) if mm else n
     named_rt = {(c, plain(m)) for c, m in named}
     bad_rt = {(c, unmangle(c, n)) for c, n in bad}
+    reordered = {f[2].get("class") for f in fails if f[2].get("difference") == "order"}
     for cls, m in sorted(bad_rt - named_rt):
+        if cls in reordered:        # which def of a name wins depends on the order: already reported for the class
+            continue
         # byte code differs although the normalised ASTs agree: the translator misses a real difference
         ctx.fail("C20:method-differs-bytecode:%s.%s" % (cls, m),
                  "%s.%s: run-time byte code of neuroml.nml.nml differs from the exec'd spec source, but the AST digests agree"
